@@ -20,6 +20,10 @@ CHECKS = {
          "TLC enumerates the ten aggregate operators x grouping modes (none, by, except) x having conditions, standalone and inside aggr, over datasets with repeated keys in the non-grouped identifier, null measures, an all-null group, a single-datapoint group and the empty dataset (GenAggr); every transition is replayed into run(); random aggregation statements over random datasets of 0-200 datapoints are validated by VTLOperators_Trace with exact rational arithmetic (standard deviations by squaring).",
          "count over a group without non-null values (0 vs null) is not judged; count() without operand counts datapoints with at least one non-null measure (spec/READINGS.md 15); standalone having only over mono-measure datasets (engine limitation).",
          "TLA+ executable semantics, TLC enumeration replayed into run(), TLC trace validation"),
+ 'C04': ('model_checking',
+         "VTLOperators defines a join as the relational join of its operands on their shared identifiers (inner: all operands present; left: the first operand's datapoints with optional partners; full: one combination per key present anywhere; cross: every combination), the virtual dataset whose clashing non-key components are named alias#name, the body clauses applied in order on that virtual dataset, null fill for the missing side, and removal of the alias prefixes at the end. TLC (GenJoins) enumerates inner / left / full / cross joins of A, B (same identifiers, clashing measure) and C (nested identifier set) over EVERY subset of the key space per operand - every partial key-overlap pattern - with and without aliases, using, bodies that resolve the clash (drop / keep / rename), filters on either side, calc over both sides and aggr (thorough: three-operand joins); transitions are replayed into run(); random joins of 2-3 random datasets (equal / nested identifier sets, operands in any order for inner joins) are validated by TLC (VTLOperators_Trace).",
+         "Identifier sets are equal or nested and using names the common identifiers (the engine rejects other shapes at semantic analysis); apply is not modelled; viral attributes in joins are C28's subject.",
+         "TLA+ executable join semantics, TLC enumeration replayed into run(), TLC trace validation"),
  'C05': ('model_checking',
          "TLC exhaustively explores the set-operator model GenSets (every subset of 3 keys per operand, 2-4 operands in every order, conflicting measures, chained statements) and checks algebraic laws and well-formedness in every state; every explored transition is a candidate test of run() (B1, seeded sample in the quick tier) and random larger inputs are validated by the trace specification VTLOperators_Trace (B2).",
          "Numbers compared with 1e-6 relative tolerance.",
